@@ -28,6 +28,8 @@ def _doc(i):
     return " ".join(d.split())[:1500]
 
 AUTO = {
+ "C04": ("TLA+ spec Compress.tla (permissive PackAny: where a pointer may be emitted and what it must point at; decoder-side judge over both packings using Framing/Names/WireRR.Layout): TLC model checking of the refinement PackImpl => PackAny with the pointer limit lowered + TLC-generated messages (name families, every type with an RDATA name, 16384 crossings, hand-compressed RDATA) packed with and without compression by the real Pack and judged by TLC + trace validation of item streams of large random messages (independent Go walker cross-checked against TLC's walk)", "4/C04"),
+ "C10": ("TLA+ spec Dnssec.tla (RFC 4034 canonical RR form and ordering, RRSIG signed data, pre-checks; signature primitive uninterpreted): TLC model checking of invariance/sensitivity + two trace-validation passes around the harness (real RRSIG.Sign events -> TLC emits the signed octets -> stdlib crypto verifies the real signature over the SPEC's octets and forges signatures over them -> real Verify on equivalent / altered / bit-flipped variants judged by PreChecks /\\ data equality)", "4/C10"),
  "C06": ("TLA+ specs Present.tla (RFC 1035 5.1 lexer) and Zone.tla (zone-file denotation machine: origin, owner/TTL/class inheritance, $ORIGIN/$TTL/$INCLUDE/$GENERATE with modifiers): TLC model checking over line sequences + every behaviour exported with the records it denotes, rendered by the harness in several equivalent spellings and parsed by ZoneParser under each configuration + the renderings re-lexed by the spec + trace validation of random zones", "4/C06"),
  "C07": ("TLA+ specs Present.tla / Zone.tla (safety side: sticky error, include gate and depth, nested $GENERATE ban, 65536 bound): TLC-enumerated hostile texts classified by the spec lexer + structured include/generate families replayed into ZoneParser under recover/time/allocation guards with an fs.FS wrapper counting opens + trace validation of next/err/open histories", "4/C07"),
  "C13": ("TLA+ spec Server.tla (one action per critical section of server.go; starter, serve loops, workers, shutdown caller, second starter, clients): TLC model checking of safety + liveness with 15 must-fail broken variants + tlc -simulate behaviours forced onto the real server through gate hooks (fakenet transports, quiescence from goroutine stacks, projection compared after each step) + trace validation of un-gated scenario runs (hook events numbered inside the critical sections), also in a -race build, goroutine/conn census", "4/C13"),
